@@ -38,6 +38,7 @@ type c01Mon struct {
 	mayCancel  bool
 	cancelled  bool
 	maxFails   int  // > 0: at most this many failed attempts (for runs with an unbounded symbolic budget)
+	sliceErrs  bool // failing attempts return errors of a non-comparable dynamic type
 	errForms   bool // failing attempts return errors in several forms (plain / context-wrapping / typed nil)
 }
 
@@ -73,6 +74,9 @@ func (m *c01Mon) exec(p any) (any, error) {
 		m.lastErr = vNewErr()
 		if m.errForms {
 			m.lastErr = vFailure("exec")
+		}
+		if m.sliceErrs {
+			m.lastErr = vSliceErr{"field a", "field b"} // an error value of a non-comparable type
 		}
 		if vNondet[bool]("execFailWithValue") {
 			return &vTok{id: 666}, m.lastErr // a failed attempt's value is not a result
@@ -240,6 +244,10 @@ func (n *c01NoFbNode) Post(ctx context.Context, s *SharedStore, p, e any) (Actio
 func VH_C01_structNoFb() {
 	N := c01Budget()
 	m := c01NewMon(N)
+	if vNondet[bool]("nonComparableErrors") {
+		vCover("non-comparable-error-type")
+		m.sliceErrs = true
+	}
 	n := &c01NoFbNode{BaseNode: NewBaseNode(WithMaxRetries(N)), m: m}
 	act, err := Run(m.ctx, n, m.store)
 	vAssert(m.fbs == 0, "no-user-fallback-exists")
